@@ -291,6 +291,17 @@ impl Client {
 fn free_port() -> u16 {
     StdTcpListener::bind("127.0.0.1:0").unwrap().local_addr().unwrap().port()
 }
+fn free_port6() -> u16 {
+    StdTcpListener::bind("[::1]:0").unwrap().local_addr().unwrap().port()
+}
+/// the loopback address of this listener: IPv6 for a third of them (derived from the scenario text), if the host has it
+fn loopback(v6: bool, port: u16) -> SocketAddr {
+    if v6 {
+        SocketAddr::from((std::net::Ipv6Addr::LOCALHOST, port))
+    } else {
+        SocketAddr::from(([127, 0, 0, 1], port))
+    }
+}
 
 struct Running {
     handle: ServerHandle,
@@ -338,6 +349,7 @@ fn start(w: usize, l: usize, chain: &[String], dir: &PathBuf, sh: &Arc<Shared>, 
                 b = apply(b, o);
             }
             let mut addrs = Vec::new();
+            let have_v6 = StdTcpListener::bind("[::1]:0").is_ok();
             let nworkers = w;
             for (call, it) in chain.iter().enumerate() {
                 let sh2 = sh.clone();
@@ -391,7 +403,8 @@ fn start(w: usize, l: usize, chain: &[String], dir: &PathBuf, sh: &Arc<Shared>, 
                 let name = format!("{}{call}", ["q", "c", "x", "a", "m", "b", "z"][call % 7]);
                 let r = match it.as_bytes()[0] {
                     b'l' => {
-                        let lst = StdTcpListener::bind("127.0.0.1:0").unwrap();
+                        let v6 = have_v6 && (opt_seed as usize + call) % 3 == 0;
+                        let lst = StdTcpListener::bind(loopback(v6, 0)).unwrap();
                         addrs.push(Addr::Tcp(lst.local_addr().unwrap()));
                         b.listen(name, lst, tcp)
                     }
@@ -401,7 +414,13 @@ fn start(w: usize, l: usize, chain: &[String], dir: &PathBuf, sh: &Arc<Shared>, 
                         let mut res = None;
                         let mut bb = Some(b);
                         for _ in 0..20 {
-                            let sa: Vec<SocketAddr> = (0..k).map(|_| SocketAddr::from(([127, 0, 0, 1], free_port()))).collect();
+                            // the addresses one name resolves to: IPv4 and IPv6 mixed
+                            let sa: Vec<SocketAddr> = (0..k)
+                                .map(|j| {
+                                    let v6 = have_v6 && (opt_seed as usize + call + j) % 3 == 1;
+                                    loopback(v6, if v6 { free_port6() } else { free_port() })
+                                })
+                                .collect();
                             let bx = bb.take().unwrap();
                             // ServerBuilder is consumed by bind(); an Err loses it, so probe the ports first
                             let probe: Vec<_> = sa.iter().map(StdTcpListener::bind).collect();
@@ -492,7 +511,7 @@ fn connect(addr: &Addr) -> std::io::Result<Client> {
 fn connect_emfile(addr: &Addr, hold: Duration) -> std::io::Result<Client> {
     use socket2::{Domain, SockAddr, Socket, Type};
     let (sock, sa) = match addr {
-        Addr::Tcp(a) => (Socket::new(Domain::IPV4, Type::STREAM, None)?, SockAddr::from(*a)),
+        Addr::Tcp(a) => (Socket::new(if a.is_ipv6() { Domain::IPV6 } else { Domain::IPV4 }, Type::STREAM, None)?, SockAddr::from(*a)),
         Addr::Uds(p) => (Socket::new(Domain::UNIX, Type::STREAM, None)?, SockAddr::unix(p)?),
     };
     let mut old = libc::rlimit { rlim_cur: 0, rlim_max: 0 };
